@@ -18,13 +18,42 @@ from pysrc import Fn, World, Untranslatable, _methods
 from pysrc_act import TrAct
 
 LEAN_TYPE = pysrc.LEAN_TYPE
-LEAN_TYPE.update({"TopoM": "List (List Int)", "Dist": "List (List Nat)", "Addrs": "List Addr", "Perm": "List Nat"})
+LEAN_TYPE.update({"TopoM": "List (List Int)", "Dist": "List (List Nat)", "Addrs": "List Addr", "Perm": "List Nat",
+                  "Ext": "PyRt.Ext", "ExtPair": "PyRt.Ext × PyRt.Ext"})
 
 
 class TrBound(TrAct):
+    def ext(self, o, t):
+        """an argument of min / max among values: plain numbers (counts, access levels, address bounds) are scaled to
+        the unit of values (1/64)"""
+        if t == "Ext":
+            return o
+        if t == "Int":
+            return f"(PyRt.Ext.fin {o})"
+        if t in ("Num", "Nat"):
+            return f"(PyRt.Ext.fin (64 * ({o} : Int)))"
+        raise Untranslatable(f"{self.fn.cls}.{self.fn.name}: a {t} among values")
+
     def expr(self, e, env):
         if isinstance(e, ast.Name) and e.id == "INTERNET" and e.id not in env:
             return "(0 : Nat)", "Nat"
+        if ast.unparse(e) == "math.inf":
+            return "PyRt.Ext.posInf", "Ext"
+        if ast.unparse(e) == "-math.inf":
+            return "PyRt.Ext.negInf", "Ext"
+        if isinstance(e, ast.Attribute) and isinstance(e.value, ast.Name) and e.value.id == "AccessLevel" and self.w.access:
+            return f"({self.w.access[e.attr]} : Nat)", "Nat"
+        if isinstance(e, ast.Subscript) and isinstance(e.slice, ast.Constant) and e.slice.value in (0, 1):
+            o, t = self.expr(e.value, env)
+            if t == "ExtPair":
+                return f"{o}.{e.slice.value + 1}", "Ext"
+            if t == "NatPair":
+                return f"{o}.{e.slice.value + 1}", "Nat"
+        if isinstance(e, ast.Tuple) and len(e.elts) == 2:
+            a, ta = self.expr(e.elts[0], env)
+            b, tb = self.expr(e.elts[1], env)
+            if ta == "Ext" and tb == "Ext":
+                return f"({a}, {b})", "ExtPair"
         if isinstance(e, ast.Attribute):
             if ast.unparse(e) in ("np.iinfo(np.int16).max", "numpy.iinfo(numpy.int16).max"):
                 return "PyRt.int16Max", "Nat"
@@ -40,6 +69,16 @@ class TrBound(TrAct):
                     return f"{o}.hosts", "HostDict"
             if t == "HostDef" and e.attr == "discovery_value":
                 return f"{o}.dvalue", "Int"
+            if t == "HostDef" and e.attr == "value":
+                return f"{o}.value", "Int"
+            if t == "Sc2":
+                if e.attr == "hosts":
+                    return f"{o}.hosts", "HostDict"
+                if e.attr == "address_space_bounds":
+                    return f"{o}.bounds", "NatPair"
+                fn = self.w.lookup("Sc2", e.attr)
+                if fn is not None:
+                    return f"({fn.lean} {o})", fn.ret
             if t == "Env" and e.attr == "network":
                 return f"{o}.sc", "Net2"
             return super().expr(e, env)
@@ -109,6 +148,13 @@ class TrBound(TrAct):
             if t != "Perm":
                 self.err(e, f"permutations of {t}")
             return f"(PyRt.permutations {o})", "List:Perm"
+        if text in ("min", "max") and len(e.args) >= 2:
+            parts = [self.expr(a, env) for a in e.args]
+            if any(t in ("Ext", ) for _, t in parts) or getattr(self.fn, "ext_ctx", False):
+                acc = self.ext(*parts[0])
+                for o, t in parts[1:]:
+                    acc = f"(PyRt.Ext.{text} {acc} {self.ext(o, t)})"
+                return acc, "Ext"
         if text == "min" and len(e.args) == 2:
             a, ta = self.expr(e.args[0], env)
             b, tb = self.expr(e.args[1], env)
@@ -227,6 +273,23 @@ def translate_bound():
     for nm, rt in (("get_total_sensitive_host_value", "Int"), ("get_total_discovery_value", "Int"), ("get_minimal_hops", "Nat")):
         fn = mk("Network", nm, f"Network.{nm}", [], rt, "method", "Net2")
         emit(fn, net.get(nm), f"`nasim/envs/network.py`: `Network.{nm}`")
+    # --- the Box bounds of the observation space (C10)
+    from nasim.scenarios import scenario as sc_mod
+    from nasim.envs import observation as obs_mod
+    from nasim.envs.utils import AccessLevel
+    w.access = {m.name: int(m) for m in AccessLevel}
+    LEAN_TYPE.update({"Sc2": "Scenario"})
+    w.local_types.update({("host_value_bounds", "min_value"): "Ext", ("host_value_bounds", "max_value"): "Ext",
+                          ("host_discovery_value_bounds", "min_value"): "Ext", ("host_discovery_value_bounds", "max_value"): "Ext"})
+    props = pysrc_obs._prop_methods(sc_mod, "Scenario")
+    for nm in ("host_value_bounds", "host_discovery_value_bounds"):
+        fn = mk("Scenario", nm, f"Scenario.{nm}", [], "ExtPair", "method", "Sc2")
+        fn.ext_ctx = True
+        emit(fn, props.get(nm), f"`nasim/scenarios/scenario.py`: `Scenario.{nm}`")
+    obs_meth = _methods(obs_mod, "Observation")
+    fn = mk("Observation", "get_space_bounds", "Observation.get_space_bounds", [("scenario", "Sc2")], "ExtPair", "function")
+    fn.ext_ctx = True
+    emit(fn, obs_meth.get("get_space_bounds"), "`nasim/envs/observation.py`: `Observation.get_space_bounds`")
     envm = _methods(env_mod, "NASimEnv")
     for nm, rt in (("get_minimum_hops", "Nat"), ("get_score_upper_bound", "Int")):
         fn = mk("NASimEnv", nm, f"NASimEnv.{nm}", [], rt, "method", "Env")
